@@ -30,7 +30,7 @@ ALIAS_TAGS = ['content', 'seg_content', 'seg_sop', 'ann_content', 'ann_sop', 'ko
 CTOR_TAGS = ['base', 'content', 'seg_content', 'seg_sop', 'pm_content', 'pm_sop', 'sc_sop', 'sr_coding', 'sr_content', 'sr_sop',
              'sr_value_types', 'sr_templates', 'ko_content', 'ko_sop', 'ann_content', 'ann_sop', 'pr_content', 'pr_sop', 'legacy_sop',
              'volume', 'coding_schemes', 'color', 'image', 'io', 'spatial', 'sr_utils', 'uid']
-TARGETS = ['T20vr', 'T20uid', 'T20sites', 'T20ds', 'T20pkg', 'T20calls', 'T20pyd', 'T20shared'] + ['T20alias_' + t for t in ALIAS_TAGS] + ['T20ctor_' + t for t in CTOR_TAGS]
+TARGETS = ['T20vr', 'T20uid', 'T20sites', 'T20ds', 'T20pkg', 'T20calls', 'T20pyd', 'T20shared', 'T20neg'] + ['T20alias_' + t for t in ALIAS_TAGS] + ['T20ctor_' + t for t in CTOR_TAGS]
 LEAN_MODULES = ['HdVerif.Props.C20']
 MODEL_MODULES = ['HdVerif.Model.VR', 'HdVerif.Model.VRGuards', 'HdVerif.Model.Aliasing', 'HdVerif.Model.AliasConcrete',
                  'HdVerif.Model.AliasTables']
@@ -406,7 +406,14 @@ def file_clause(obj):
         try:
             obj.save_as(buf, enforce_file_format=True)
         except Exception as e:  # noqa: BLE001
-            return f'strict write refused: {type(e).__name__}: {str(e)[:300]}', None
+            # pydicom's `tag_in_exception` re-raises `type(exc)(message)`, which for a UnicodeEncodeError is a TypeError: the cause
+            # is in the exception chain
+            chain, x = [], e
+            while x is not None and len(chain) < 8:
+                chain.append(x)
+                x = x.__cause__ or x.__context__
+            mark = " [raised in pydicom's character-set encoder]" if any(isinstance(c, UnicodeEncodeError) for c in chain) else ''
+            return f'strict write refused: {type(e).__name__}: {str(e)[:300]}{mark}', None
         blob = buf.getvalue()
         try:
             back = pydicom.dcmread(io.BytesIO(blob))
@@ -662,6 +669,23 @@ def _compare(ctx, pend, answers):
             ctx.disagree(layer, case, impl, model, 'refusal kind')      # the property of the guards speaks of ValueError
 
 
+def _extractor_corpus(ctx):
+    """negative tests of the alias-flow extractor: the committed corpus of synthetic constructors (translate/tests_C20/corpus.py),
+    as abstracted by the extractor of this run (Generated/T20neg.lean), evaluated by the model"""
+    ans = ctx.model([('corpus', {})])
+    if not ans or 'ok' not in ans[0]:
+        return
+    r = ans[0]['ok']
+    for name in r.get('writersAccepted', []):
+        ctx.disagree('L0', {'corpus_writer': name}, 'writes an argument', 'accepted by neverWritesInputs',
+                     'extractor corpus: a constructor that writes an argument is accepted')
+    for name in list(r.get('twinsRejected', [])) + list(r.get('twinsRefused', [])):
+        ctx.disagree('L0', {'corpus_twin': name}, 'writes nothing the caller sees', 'rejected', 'extractor corpus: a harmless twin is rejected')
+    ctx.hist('extractor_corpus', f"writers rejected {r.get('writers', 0) - len(r.get('writersAccepted', []))} + refused {r.get('refused', 0)}")
+    ctx.hist('extractor_corpus', f"twins accepted {r.get('twins', 0) - len(r.get('twinsRejected', []))}")
+    ctx.exhaustive.append(f"extractor corpus: {r.get('writers', 0)} writing constructors + {r.get('refused', 0)} refused, {r.get('twins', 0)} twins")
+
+
 def _strings_and_uids(ctx):
     r1, p1 = _check_guards(ctx)
     r2, p2 = _check_regex_engine(ctx)
@@ -722,7 +746,8 @@ def attribute(failure, open_findings):
     case = failure.get('case') or {}
     ids = {f['id'] for f in open_findings}
     if 'C20-non-latin1-text-unwritable' in ids and isinstance(case, dict) and case.get('text_class') == 'non-latin1' \
-            and str(failure.get('site', '')).endswith('/file') and str(failure.get('detail', '')).startswith('strict write refused'):
+            and str(failure.get('site', '')).endswith('/file') and str(failure.get('detail', '')).startswith('strict write refused') \
+            and CHARSET_FAILURE.search(str(failure.get('detail', ''))):       # the refusal itself must come from the text encoder
         return 'C20-non-latin1-text-unwritable'
     return None
 
@@ -905,6 +930,9 @@ def _run_subject(ctx, idx, collect=None):
         _run_subject_strict(ctx, idx, s, case, collect)
 
 
+# what a failure caused by text outside the declared character set looks like (the open finding): pydicom's encoder raises
+# UnicodeEncodeError - or, in RAISE mode, trips over constructing one; `file_clause` marks those by where they were raised
+CHARSET_FAILURE = re.compile(r"UnicodeEncodeError|codec can't encode|\[raised in pydicom's character-set encoder\]")
 PYDICOM_VALIDATION = re.compile(r"with a VR of|Invalid value for VR|exceeds the maximum length|must be <= \d+ characters|"
                                 r"is not valid for VR|Value .* for VR")
 
@@ -920,7 +948,7 @@ def _run_subject_strict(ctx, idx, s, case, collect):
         ctx.case(subject=s['name'], subject_outcome='refused:' + type(e).__name__)
         ctx.note(f"{s['name']} {s['variant']} refused generated arguments: {type(e).__name__}: {str(e)[:120]}")
         ctx.hist('refused_valid_arguments', s['name'])
-        if PYDICOM_VALIDATION.search(str(e)) and not (case.get('text_class') == 'non-latin1'):
+        if PYDICOM_VALIDATION.search(str(e)) and not CHARSET_FAILURE.search(f'{type(e).__name__}: {e}'):
             # the library itself produced a value pydicom's validation rejects
             ctx.fail(case, f'value validation (RAISE) rejected a value the constructor produced: {type(e).__name__}: {str(e)[:200]}',
                      site=s['name'] + '/file')
@@ -1326,6 +1354,7 @@ def _compare_alias_model(ctx, obs):
 
 
 def run(ctx):
+    _extractor_corpus(ctx)
     _strings_and_uids(ctx)
     _objects(ctx)
 
